@@ -92,6 +92,13 @@ def cases():
         out.append(('date and time("%s")' % s, 'null'))
     for s in ('2021-03-04T10:20:59', '2021-03-04T23:59:59Z', '2021-03-04T00:00:00+01:00', '2020-02-29T10:20:30'):
         out.append(('string(date and time("%s"))' % s, '"%s"' % s))
+    # time(h, m, s, offset): like in time literals the magnitude of the offset is below 15 hours, whatever the size of the duration (C14: a zone is
+    # printed as the offset that was written - so an offset that cannot be written is no time)
+    for (o, txt) in (('PT0S', 'Z'), ('PT1H', '+01:00'), ('-PT1H30M', '-01:30'), ('PT14H59M59S', '+14:59:59'), ('-PT14H59M59S', '-14:59:59'), ('-PT0.9S', 'Z')):
+        out.append(('string(time(1, 2, 3, duration("%s")))' % o, '"01:02:03%s"' % txt))
+    for o in ('PT15H', '-PT15H', 'P1D', '-P1D', 'PT2147483648S', '-PT2147483649S', 'PT4294967296S', 'PT4294967297S', 'PT9223372036854775807S', 'PT9223372036854775808S', '-PT9223372036854775808S',
+              'PT9223372036854775809S', 'PT18446744073709551615S', '-PT18446744073709551615S', 'PT18446744073709551614S', 'P213503982334601D'):
+        out.append(('time(1, 2, 3, duration("%s"))' % o, 'null'))
     # ---- B: date(y, m, d)
     for y in (1, 1900, 2000, 2020, 2021, 999999999):
         for m in (-1, 0, 1, 2, 12, 13, 255, 256, 257, 258, 268, 524, 65537):
